@@ -40,6 +40,10 @@ def run(chk, PROP, profiles, n_tok, n_e2e, per_func, driver_ok, broken, workdir)
             broken.append({"kind": "correspondence", "name": "emit-tokens",
                            "msg": "%d module(s) differ between real w2c2 and Model.Emit/Render; first %s: %r" % (len(tok_bad), s0, tok_bad[s0]),
                            "modules": unexplained[:10]})
+    # sim-semantics: the simulation's source semantics over the instance state (globals, loads/stores, memory.size/grow, stateful
+    # calls) vs V8 vs the real output on the same profiles (e2e_common.sim_step)
+    sim_specs = [s for g, (prof, share) in zip(gen, profiles) for s in g[: max(1, int(n_e2e * share))]]
+    ec.sim_step(chk, PROP, env, sim_specs, per_func, driver_ok, broken, judge=c03.judge, stats=stats, behav=behav)
     chk.coverage.update({
         "e2e_profiles": [p for p, _ in profiles], "emit_tokens_functions": nfun, "emit_tokens_mismatching_modules": len(tok_bad),
         "e2e_modules": len([r for r in results if not r.get("error")]), "e2e_calls_compared": stats["calls_compared"],
